@@ -1,9 +1,32 @@
-import Octo.Model.TyAlgebra
-/-! # C10 — Type algebra laws (work in progress) -/
+import Octo.Lemmas.TyTypeOf
+import Octo.Lemmas.TyNonNull
+/-!
+# C10 — Type algebra laws hold (checkpoint; extended below)
+-/
 namespace Octo.C10
 open Octo Octo.Ty
 
-theorem nonNullable_id_of_not_union (t : Ty) (h : t.isUnion = false) : nonNullable t = t := by
-  cases t <;> simp_all [nonNullable, isUnion]
+/-- the subtype relation is reflexive (all types, any nesting) -/
+theorem is_refl (t : Ty) : t.is t = .is := Ty.is_refl t
+
+/-- … and transitive -/
+theorem is_trans (a b c : Ty) (h1 : a.is b = .is) (h2 : b.is c = .is) : a.is c = .is := Ty.is_trans h1 h2
+
+/-- `Is` is sound for "value matches type" -/
+theorem is_sound (a b : Ty) (h : a.is b = .is) (v : Value) (hv : conforms a v = true) : conforms b v = true :=
+  Ty.is_sound h v hv
+
+/-- `TypeSum(a, a) = a` -/
+theorem sum_idem (a : Ty) (n : Nat) : typeSumF (n + 1) a a = some a := by
+  simp [typeSumF, typeSumStep, Ty.is_refl]
+
+/-- `TypeSum(a, b)` is an upper bound of `a` and of `b` when the operands are shape compatible -/
+theorem sum_upper_partial (n : Nat) (a b c : Ty) (h : typeSumF n a b = some c) (hok : shapeOkF n a b = true) :
+    a.is c = .is ∧ b.is c = .is := sum_upper_F n a b c h hok
+
+theorem nonNullable_sub (t : Ty) : (nonNullable t).is t = .is := nonNullable_is t
+
+theorem typeOf_conforms (v : Value) (hok : v.typeOfShapeOk = true) (t : Ty) (ht : v.typeOf = some t) :
+    conforms t v = true := typeOf_conforms_aux v.size v (Nat.le_refl _) hok t ht
 
 end Octo.C10
